@@ -429,7 +429,7 @@ ConcVerdict(c) ==
   ELSE IF x.infra # "" THEN <<"INFRA:" \o x.infra>>
   ELSE (IF x.mismatches > 0 \/ x.errors > 0 THEN <<"C19:a goroutine obtained a different result than running alone">> ELSE <<>>)
        \o (IF x.uses_global \/ x.reused_ids > 0 THEN <<"C19:a type registry is shared between instances (ownership violated)">> ELSE <<>>)
-       \o (IF x.iso > 0 THEN <<"C19:an instance created with options changed what instances without them do">> ELSE <<>>)
+       \o (IF x.iso > 0 THEN <<"C19:independent instances interfere (an instance created with options, an abandoned document, or an interleaved parser changed what another instance does)">> ELSE <<>>)
 
 \* ---- kind "goreuse" (C17: iterator and unfolder) -------------------------------------
 GoReuseVerdict(c) ==
